@@ -26,9 +26,13 @@ ConnectEnabledNames(c) ==
   {s.dest : s \in {s \in Local(c.svcs) : s.kind = "connect-proxy" /\ s.dest # ""}} \cup {s.name : s \in {s \in Local(c.svcs) : s.native}}
 KindNamesComplete(c) ==
   \A s \in Local(c.svcs) : \E k \in c.kinds : k.name = s.name /\ k.kind = KindOf(s)
+\* a name with a service-defaults entry that carries a Destination (a destination outside the mesh, c.sdest) is listed
+\* under the kind "destination" for exactly as long as that entry exists
 KindNamesSound(c) ==
   \A k \in c.kinds : IF k.kind = "connect-enabled" THEN k.name \in ConnectEnabledNames(c)
+                     ELSE IF k.kind = "destination" THEN k.name \in c.sdest
                      ELSE \E s \in Local(c.svcs) : s.name = k.name /\ KindOf(s) = k.kind
+DestinationNamesComplete(c) == \A n \in c.sdest : \E k \in c.kinds : k.kind = "destination" /\ k.name = n
 ConnectEnabledComplete(c) == \A n \in ConnectEnabledNames(c) : \E k \in c.kinds : k.kind = "connect-enabled" /\ k.name = n
 
 (* gateway-services: every row is justified by the gateway's config entry; every exact link has its row *)
@@ -43,6 +47,7 @@ WildcardRowsLive(c) ==
   \A r \in {r \in c.gws : r.wild} :
      \/ \E s \in Local(c.svcs) : s.name = r.svc
      \/ r.svc \in ConnectEnabledNames(c)
+     \/ r.svc \in c.sdest
 
 (* mesh-topology: every reference points at a registered instance *)
 TopologyRefsLive(c) ==
